@@ -461,3 +461,11 @@ Tuple of (f, g, h) where:
 
     # constant but needed:
     wellformed = property(lambda self: True)
+
+    def _getValid(self):
+        """Check the declarations of this rule and of its margin rules."""
+        return self.style.valid and all(rule.valid for rule in self.cssRules)
+
+    valid = property(
+        _getValid, doc='``True`` if the style declaration and all margin rules are valid'
+    )
